@@ -508,8 +508,13 @@ func (s *Store) snapshotActive() map[string]secretState {
 	defer s.active.Unlock()
 	m := make(map[string]secretState)
 	for name, cs := range s.active.m {
+		// A secret with an outstanding handle is never removed (see
+		// applyUpdates), so it must not be treated as expired here either:
+		// otherwise the poll would skip it forever and its handle would keep
+		// serving a stale value.
+		_, hasHandle := s.active.f[name]
 		m[name] = secretState{
-			expired: s.hasExpired(cs),
+			expired: !hasHandle && s.hasExpired(cs),
 			version: cs.Secret.Version,
 		}
 	}
